@@ -105,6 +105,12 @@ Theorem C19_clone_basic :
 Proof. exact basic_clone_eq. Qed.
 Print Assumptions C19_clone_basic.
 
+(* the modelled slice comparison (the table part of every PartialEq) is slot-wise equality *)
+Theorem C19_eq_sound :
+  forall a b : table, table_eqb a b = true -> tlen a = tlen b /\ forall i, tget a i = tget b i.
+Proof. exact table_eqb_sound. Qed.
+Print Assumptions C19_eq_sound.
+
 (* ---- AdvHasher kinds with a 4-byte hash: H5 (fields from the parameters), H5q5, H5q7 ---- *)
 Theorem C19_bulk_H5 :
   forall d mask st s e, ak (a_spec st) = AK_H5 -> f_block_bits (a_spec st) <= f_hash_shift (a_spec st) -> f_hash_shift (a_spec st) <= 32 -> adv_lens_ok st = true ->
